@@ -1,6 +1,7 @@
 package facts
 
 import (
+	"fmt"
 	"go/ast"
 	"go/token"
 	"os"
@@ -259,4 +260,84 @@ func exprName(e ast.Expr) string {
 		return exprName(x.X)
 	}
 	return "?"
+}
+
+// extractEnvFacts (C17): the context table is keyed by goid() in all three accessors, GetStub reads
+// it, and the context is installed (with a deferred removal) at the known sites.
+func extractEnvFacts(f *Facts) {
+	var keyed []string
+	for _, spec := range [][2]string{{"setEnv", "Store"}, {"getEnv", "Load"}, {"delEnv", "Delete"}} {
+		fd := f.FuncDecl("core/bc_contract.go", "BaseContract", spec[0])
+		if fd == nil {
+			continue
+		}
+		ok := false
+		ast.Inspect(fd.Body, func(n ast.Node) bool {
+			c, isC := n.(*ast.CallExpr)
+			if !isC {
+				return true
+			}
+			se, isSe := c.Fun.(*ast.SelectorExpr)
+			if !isSe || se.Sel.Name != spec[1] || exprName(se.X) != "bc.envs" || len(c.Args) == 0 {
+				return true
+			}
+			if k, isK := c.Args[0].(*ast.CallExpr); isK && exprName(k.Fun) == "goid" && len(k.Args) == 0 {
+				ok = true
+			}
+			return true
+		})
+		if ok {
+			keyed = append(keyed, spec[0]+":"+spec[1])
+		}
+	}
+	sort.Strings(keyed)
+	f.Lists["envKeyedByGoid"] = keyed
+	// goid itself must read the goroutine id from runtime.Stack
+	if fd := f.FuncDecl("core/bc_contract.go", "", "goid"); fd == nil || !containsCall(fd.Body, "Stack") {
+		f.fail("core/bc_contract.go: goid() does not read runtime.Stack")
+	}
+	f.Nats["getStubReadsEnv"] = 0
+	if fd := f.FuncDecl("core/bc_contract.go", "BaseContract", "GetStub"); fd != nil && containsCall(fd.Body, "getEnv") {
+		f.Nats["getStubReadsEnv"] = 1
+	}
+	// install sites: functions calling setEnv, with the number of setEnv calls; each must be followed
+	// by a deferred delEnv
+	var sites []string
+	for _, rel := range []string{"core/cc_core_init_invoke.go", "core/cc_invoke_router.go", "core/cc_core.go", "core/cc_batch.go", "core/task_executor.go", "core/cc_swap.go", "core/cc_multiswap.go"} {
+		if _, err := os.Stat(filepath.Join(f.repo, rel)); err != nil {
+			continue
+		}
+		a := f.File(rel)
+		if a == nil {
+			continue
+		}
+		for _, d := range a.Decls {
+			fd, ok := d.(*ast.FuncDecl)
+			if !ok || fd.Body == nil {
+				continue
+			}
+			sets, defers := 0, 0
+			ast.Inspect(fd.Body, func(n ast.Node) bool {
+				switch x := n.(type) {
+				case *ast.DeferStmt:
+					if se, ok := x.Call.Fun.(*ast.SelectorExpr); ok && se.Sel.Name == "delEnv" {
+						defers++
+					}
+				case *ast.CallExpr:
+					if se, ok := x.Fun.(*ast.SelectorExpr); ok && se.Sel.Name == "setEnv" {
+						sets++
+					}
+				}
+				return true
+			})
+			if sets > 0 {
+				if sets != defers {
+					f.fail("%s: %s installs a context %d times but defers its removal %d times", rel, fd.Name.Name, sets, defers)
+				}
+				sites = append(sites, fmt.Sprintf("%s:%d", fd.Name.Name, sets))
+			}
+		}
+	}
+	sort.Strings(sites)
+	f.Lists["envInstallSites"] = sites
 }
